@@ -14,4 +14,4 @@ PROP = "C16"
 def run(tier, seed):
     return progcheck.run(PROP, tier, seed, "oracle_c16", ["rowlevel", "general", "agg", "scen_selfjoin_agg", "window", "rowlevel", "join"], 220, 5000, also=("C01",),
                          assumptions=["data-level equality (alias/collect change no value) is checked on the real code; the model-level theorems are about "
-                                      "names, identities, scope and lineage", "transfer_col_references is exercised through collect() only"])
+                                      "names, identities, scope and lineage", "transfer_col_references is exercised directly on a materialised copy (Polars frame) of the final table and on a copy whose names come from a rename, besides collect()"])
